@@ -96,6 +96,23 @@ CHECKS = {
          "concretely); separating-hyperplane theorem and convexity of R2+C trusted; 3-D point level only on concrete samples",
     technique="symbolic execution of the real numpy code on z3 reals + SMT (QF_NRA) per path",
     design_ref="DESIGN.md §3 C11"),
+ "C02": dict(
+    text="One round of the real discarding code of all seven elimination algorithms from every pre-state (every assignment of "
+         "N designs to S/U/P/gone) with arbitrary regions: the region predicates are table look-ups forked on demand, and the "
+         "post-state is proved (z3) equal to the reference transition from the property text for every table valuation; Auer's "
+         "inline arithmetic is executed symbolically with per-design, per-objective widths. Refuting tables are realised as "
+         "concrete regions by exact definitions (closed forms, Farkas certificates) and replayed on the real code.",
+    note="conditional on C09/C10/C11 (predicate code = geometric specification); N<=3 (4 thorough), m=2 (3); one round from an "
+         "arbitrary state covers every history for that N; " + REAL,
+    technique="symbolic execution of the real phase code with predicate summaries + SMT; realisation by Farkas certificates",
+    design_ref="DESIGN.md §3 C02/C03"),
+ "C03": dict(
+    text="As C02 for pareto_updating / epsiloncovering / useful_updating (and Auer's P1 / hold-back logic): a design enters P "
+         "exactly when the reference says so, P never loses members, U' is the reference's useful set; Auer with homogeneous, "
+         "per-design and per-objective widths attached to designs (the oracle indexes widths by design).",
+    note="conditional on C09/C10/C11; N<=3 (4 thorough), m=2 (3); " + REAL,
+    technique="symbolic execution of the real phase code with predicate summaries + SMT; realisation by Farkas certificates",
+    design_ref="DESIGN.md §3 C02/C03"),
 }
 
 _WIP = "check not built yet (work in progress; will be claimed once its harness exists)"
